@@ -24,8 +24,8 @@ static std::vector<Cfg> all_cfgs()
 	return v;
 }
 
-enum Ev { E_S, E_H, E_IA, E_B2, E_IT, E_T, E_IR, E_B3, E_R, E_IRA, E_IRD, E_N };
-static const char *EVN[] = { "send", "hb", "in-app", "batch2", "in-testreq", "testreq", "in-resendreq", "batch3", "restart", "in-resendreq-ahead", "in-resendreq-possdup-low" };
+enum Ev { E_S, E_H, E_IA, E_B2, E_IT, E_T, E_IR, E_B3, E_R, E_IRA, E_IRD, E_IAX, E_N };
+static const char *EVN[] = { "send", "hb", "in-app", "batch2", "in-testreq", "testreq", "in-resendreq", "batch3", "restart", "in-resendreq-ahead", "in-resendreq-possdup-low", "in-app-rejected" };
 
 struct Model {
 	Cfg cfg;
@@ -120,6 +120,9 @@ struct Model {
 				std::vector<Message *> b; for (int k = 0; k < (ev == E_B2 ? 2 : 3); ++k) b.push_back(World::nos("ID" + std::to_string(++idn)));
 				size_t n = w.ses->send_batch(b); st.outcome = "sent" + std::to_string(n); break; }
 			case E_IA: st.outcome = w.feed(w.inbound("D", peer_next, World::nos_body("P" + std::to_string(i)))) ? "processed" : "rejected"; break;
+			// an application message in sequence that fails a non-fatal check (mandatory Side missing): answered with a Reject, the session goes on
+			case E_IAX: { std::string b = World::nos_body("X" + std::to_string(i)); size_t p54 = b.find(std::string(1, SOH) + "54=1" + SOH); if (p54 != std::string::npos) b.erase(p54 + 1, 5);
+				st.outcome = w.feed(w.inbound("D", peer_next, b)) ? "processed" : "rejected"; break; }
 			case E_IT: st.outcome = w.feed(w.inbound("1", peer_next, std::string("112=X") + SOH)) ? "processed" : "rejected"; break;
 			case E_IR: st.outcome = w.feed(w.inbound("2", peer_next, std::string("7=1") + SOH + "16=0" + SOH)) ? "processed" : "rejected"; break;
 			// a ResendRequest that does not carry the expected number is still acted on: two numbers ahead of sequence, and a
